@@ -177,6 +177,41 @@ class R:
         self.exc = exc
 
 
+class Unknown:
+    """A value no contract says anything about: the result of calling / reading something that has neither a contract nor a
+    model (a helper added to the repository, a library function nobody modelled).  Modular semantics: the callee's contract is
+    `true` -- any result, any exception, any effect on the reachable heap.  Obligations that need more than that fail."""
+
+    def __init__(self, why):
+        self.why = why
+
+    def __repr__(self):
+        return "<unknown %s>" % self.why
+
+    def __pyvc_getattr__(self, sx, attr, st, node):
+        return [R(st, Conc(Unknown(self.why + "." + attr)))]
+
+    def __pyvc_call__(self, sx, args, kwargs, st, node):
+        sx.uncontracted.append("%s (line %s)" % (self.why, getattr(node, "lineno", "?")))
+        for cell in list(st.heap):
+            if cell not in sx.frozen_cells(st):
+                sx.havoc_cell(cell, st)
+        sx.reg.havoc_ghost_for_unknown_call(sx, st)
+        bad = st.fork()
+        return [R(st, Conc(Unknown(self.why + "()"))), R(bad, None, Exc("Exception", exact=False))]
+
+    def __pyvc_iter__(self, sx, st, node):
+        return ("opaque", _UnknownIter(self))
+
+
+class _UnknownIter:
+    def __init__(self, u):
+        self.u = u
+
+    def next(self, sx, st, k):
+        return [R(st, Conc(Unknown(self.u.why + "[*]"))), R(st.fork(), None, Exc("Exception", exact=False))]
+
+
 class Obligation:
     def __init__(self, name, kind, hyps, claim, loc, props=None, note=""):
         self.name = name
@@ -218,6 +253,7 @@ class SX:
         self._qcache = {}
         self._scache = {}
         self._capture_calls = set()
+        self.uncontracted = []
         self.keep_states = False
         from . import builtins as B
 
@@ -330,6 +366,8 @@ class SX:
             if isinstance(content, tuple):
                 return z3.BoolVal(False)  # untyped empty list/set/dict literal
             return self.truthy(content, st)
+        if isinstance(v, Conc) and isinstance(v.v, Unknown):
+            return z3.Bool(fresh_name("unknown_truth"))
         if isinstance(v, Conc):
             return z3.BoolVal(bool(v.v))
         if isinstance(v, Func):
@@ -365,6 +403,8 @@ class SX:
             return z3.BoolVal(True)
         if isinstance(t, V._Json):
             return self.B.json_truthy(v.term)
+        if isinstance(t, V.Opaque) and t._n == "unknown":
+            return z3.Function("unknown_truth", t.sort(), z3.BoolSort())(v.term)   # arbitrary, but the same for the same value
         if isinstance(t, V.Opaque):
             return z3.BoolVal(True)
         self.unsupported("truthiness of %r" % (t,))
@@ -506,6 +546,10 @@ class SX:
                 self.unsupported("cannot lift a tuple holding references")
             t = V.Tuple(*[i.ty for i in items])
             return Val(t, t.mk(*[i.term for i in items]))
+        if isinstance(x, Unknown):
+            # a value without any contract, used as data: an arbitrary element of an uninterpreted sort
+            t = V.Opaque("unknown")
+            return Val(t, z3.Const(fresh_name("unknown"), t.sort()))
         self.unsupported("cannot lift concrete %r" % (x,))
 
     # ---- regular-language abstraction of string values (used for "holes" in generated SQL / JSON / python text)
@@ -674,6 +718,9 @@ class SX:
         g = self.reg.lookup_global(self, name, st)
         if g is not None:
             return g
+        if not self.spec_mode and self.reg.bound_at_module_level(self, name):
+            # imported or defined in the module, but nobody gave it a contract or a model
+            return Conc(Unknown(name))
         self.unsupported("unbound name %r" % name, node)
 
     def ev_Name(self, node, st):
@@ -1008,6 +1055,14 @@ class SX:
                 m = self.reg.method(self, obj, attr, st)
                 if m is not None:
                     return [R(st, m)]
+                m = self.reg.own_class_method(self, obj, attr, st)
+                if m is not None:
+                    return [R(st, m)]
+                if not self.spec_mode and not attr.startswith("__"):
+                    # an attribute the sidecar's class model does not declare (e.g. state added to the class by a change): nothing
+                    # is known about its value
+                    self.uncontracted.append("attribute %s of %s (line %s)" % (attr, getattr(obj.ty, "cls", obj.ty), getattr(node, "lineno", "?")))
+                    return [R(st, Conc(Unknown("%s.%s" % (getattr(obj.ty, "cls", "obj"), attr))))]
                 self.unsupported("attribute %s of %r" % (attr, obj.ty), node)
             return [R(st, self.B.bound_method(self, obj, attr, node))]
         if isinstance(obj, Conc):
@@ -1015,7 +1070,13 @@ class SX:
             if isinstance(v, dict) and attr in ("get", "items", "pop", "keys", "values"):
                 return [R(st, self.B.bound_method(self, obj, attr, node))]
             if hasattr(v, "__pyvc_getattr__"):
-                return v.__pyvc_getattr__(self, attr, st, node)
+                try:
+                    return v.__pyvc_getattr__(self, attr, st, node)
+                except Unsupported:
+                    if self.spec_mode or not getattr(v, "__pyvc_module__", False):
+                        raise
+                    # a member of a modelled library module that the model does not cover
+                    return [R(st, Conc(Unknown("%s.%s" % (getattr(v, "__pyvc_module__"), attr))))]
             self.unsupported("attribute %s of concrete %r" % (attr, v), node)
         if isinstance(obj, Func):
             self.unsupported("attribute %s of function" % attr, node)
@@ -1353,6 +1414,9 @@ class SX:
             v = self.lookup(node.id, st, node)
             if isinstance(v, Conc) and isinstance(v.v, Exc):
                 return [Out("raise", st, v.v)]
+            if isinstance(v, Conc) and isinstance(v.v, Unknown):
+                # raising a value nothing is known about: some exception (or TypeError if it is not one)
+                return [Out("raise", st, Exc("Exception", exact=False))]
         self.unsupported("raise of %s" % ast.unparse(node), stmt)
 
     def exc_class_name(self, node):
@@ -1752,6 +1816,16 @@ class SX:
         "append", "add", "insert", "clear", "pop", "extend", "update", "remove", "discard",
         "appendleft", "popleft", "sort", "setdefault", "put", "write", "reverse",
     }
+
+    def frozen_cells(self, st):
+        out = set()
+        for c in st.heap.values():
+            if isinstance(c, dict):
+                for a in c.get("__frozen__", ()):
+                    v = c.get(a)
+                    if isinstance(v, Ref):
+                        out.add(v.cell)
+        return out
 
     def havoc_for_loop(self, body_stmts, st, extra_targets=()):
         """havoc everything the loop body may change; returns nothing (mutates st)"""
